@@ -22,10 +22,11 @@ def main():
         src, sid = arg.split("=")
         dst = os.path.join("/verif/seeded", sid)
         os.makedirs(dst, exist_ok=True)
-        for f in os.listdir(src):
-            if os.path.isfile(os.path.join(src, f)):
-                shutil.copy(os.path.join(src, f), os.path.join(dst, f))
-        meta = json.load(open(os.path.join(src, "meta.json")))
+        if os.path.isdir(src):
+            for f in os.listdir(src):
+                if os.path.isfile(os.path.join(src, f)):
+                    shutil.copy(os.path.join(src, f), os.path.join(dst, f))
+        meta = json.load(open(os.path.join(src if os.path.isdir(src) else dst, "meta.json")))
         prev = {}
         if os.path.exists(os.path.join(dst, "meta.json")):
             try:
